@@ -223,7 +223,15 @@ def _check_agent(agent, pre, kind, case, rec, gen):
                     missing=missing,
                     **ctx,
                 )
-            want_lr = getattr(a, cfg.lr)
+            # which attribute the optimizer has to follow is decided from WHAT it trains (critics: lr_critic, actors:
+            # lr_actor, single-rate learners: lr), not from the wrapper's own bookkeeping of the name
+            from vf.props.c06 import _expected_lr_attr
+
+            lr_attr = _expected_lr_attr(agent, cfg)
+            if lr_attr != cfg.lr:
+                rec.violate("optimizer_lr", "optimizer_registered_under_another_learning_rate_than_the_one_of_its_networks", site,
+                            optimizer=f"{cfg.name}[{oi}]", registered=cfg.lr, expected=lr_attr, **ctx)
+            want_lr = getattr(a, lr_attr)
             for g in opt.param_groups:
                 rec.hit("optimizer_lr_checks")
                 if abs(float(g["lr"]) - float(want_lr)) > 1e-12 * max(1.0, abs(float(want_lr))):
@@ -401,6 +409,9 @@ def run_case(case):
     kw = {}
     if "share_encoders" in case:
         kw["share_encoders"] = case["share_encoders"]
+    if case["seed"] % 4 == 1 and algo in ("DDPG", "TD3", "MADDPG", "MATD3"):
+        # equal in value, separate float objects (as after parsing a configuration file)
+        kw.update(lr_actor=float("0.001"), lr_critic=float("1e-3"))
     if case.get("tight_head"):
         kw["net_config"] = {"head_config": {"hidden_size": [16, 16], "min_hidden_layers": 1, "max_hidden_layers": 2,
                                             "min_mlp_nodes": 8, "max_mlp_nodes": 64}}
